@@ -13,7 +13,7 @@ from vlib.runner import Violation, Discard, HarnessError, VERIF
 
 ID = "C08"
 RULE = (
-    "cases = operation sequences (drawn as plain data, interpreted step by step) over a pool of 2-3 generated projects with and without programs, derivative parameters, parameter scenarios and explicit partial initializations: run(i), rerun(i), run without "
+    "cases = operation sequences (drawn as plain data, interpreted step by step) over a pool of 2-3 generated projects with and without programs, derivative parameters, parameter scenarios and explicit partial initializations: run(i), rerun(i), a REFUSED run of an impossible variant (module-level settings must be unchanged after every operation), run without "
     "programs, build-model + deepcopy + process both, build-model + pickle round trip + process, Result save/load, runs of other projects in between; a sample of cases also runs the "
     "spec in fresh processes with different PYTHONHASHSEED values; oracle: the digest of all output arrays of project i never changes (bitwise), the canonical structural form of parset, "
     "progset, instructions, framework, data and settings is identical before and after every call, copies give the original's digest; non-trivial = >= 2 distinct projects, a rerun "
@@ -26,7 +26,7 @@ ASSUMPTIONS = [
 BUDGET = {"quick": 400, "thorough": 10000}
 TIME_CAP = {"quick": 75, "thorough": 1500}
 PROFILE = {"p_deriv": 0.2, "p_agg_transition": 0.1, "p_programs": 0.6, "max_steps": 10, "min_steps": 3, "extreme": 0.05, "p_function": 0.4, "p_timed": 0.4, "p_junction": 0.4, "p_output_pars": 0.5, "max_pops": 2, "p_interaction": 0.4}
-OPS = ["run", "run", "rerun", "run_noprog", "deepcopy", "pickle", "saveload", "runsim_api", "report"]
+OPS = ["run", "run", "rerun", "run_noprog", "deepcopy", "pickle", "saveload", "runsim_api", "report", "rejected_run"]
 
 
 @st.composite
@@ -123,6 +123,20 @@ def check(case):
                     if v != pj["before"][k]:
                         raise Violation(ID, "other-project-modified/%s" % k, "%s of project %d changed while operating on project %d ('%s')" % (k, j, i, what))
 
+    def globals_snapshot():
+        import atomica.model as am
+        import atomica.system as asys
+
+        out = {"model_settings": repr(sorted(am.model_settings.items()))}
+        for nm in ("default_interpolation_method", "tolerance"):
+            if hasattr(asys, nm):
+                out[nm] = repr(getattr(asys, nm))
+        fs = asys.FrameworkSettings
+        out["FS"] = repr(sorted((k, v) for k, v in vars(fs).items() if k.isupper() and isinstance(v, (str, int, float, list, tuple, set, frozenset))))
+        return out
+
+    globals0 = globals_snapshot()
+
     def expect(i, dig, what, noprog=False):
         key = "ref_noprog" if noprog else "ref"
         if pool[i][key] is None:
@@ -173,6 +187,27 @@ def check(case):
                 if after != before:
                     raise Violation(ID, "result-modified-by-reporting", "project %d: get_coverage / get_alloc / export_raw changed the arrays stored in the result" % i)
                 expect(i, after, "report")
+            elif op == "rejected_run":
+                # a run that atomica refuses (a copy of the parameter set with an impossible, large initial state): routine in calibration
+                # and sampled runs.  It must leave no trace: the library's module-level settings are compared, and the operations that
+                # follow re-check every project's outputs
+                ps2 = sc.dcp(ps)
+                dbc = [c["name"] for c in case["specs"][i]["comps"] if c.get("db") and c["kind"] == "ord" and c["name"] in ps2.pars]
+                if dbc:
+                    for k_, name in enumerate(dbc[:2]):
+                        for ts in ps2.pars[name].ts.values():
+                            v_ = -5.0 if k_ == 0 else 3e9
+                            if ts.vals:
+                                ts.vals = [v_ for _ in ts.vals]
+                            else:
+                                ts.assumption = v_
+                    try:
+                        simcase.two_step(P, ps2, pg, ins)
+                        labels.add("rejected_run:accepted")
+                    except at.BadInitialization:
+                        labels.add("rejected_run:refused")
+                    except Exception:
+                        labels.add("rejected_run:other-error")
             elif op == "saveload":
                 res, _ = simcase.two_step(P, ps, pg, ins)
                 res2 = sc.loadstr(sc.dumpstr(res))
@@ -186,6 +221,8 @@ def check(case):
                 raise Discard("atomica raised %s at %s on the first operation on a project (decided by C18)" % (type(e).__name__, simcase.atomica_frame(e)))
             raise Violation(ID, "fails-on-repeat/%s/%s" % (op, type(e).__name__), "project %d: '%s' raised %s (%s) although an earlier run of the same inputs succeeded" % (i, op, type(e).__name__, str(e)[:200]))
         verify_inputs(i, op)
+        if globals_snapshot() != globals0:
+            raise Violation(ID, "global-state-modified/%s" % op, "module-level settings of the library changed during '%s' on project %d: %r -> %r" % (op, i, globals0, globals_snapshot()))
         done.append([op, i])
         labels.add("op:" + op)
         for j in last_other:
